@@ -1419,10 +1419,60 @@ def run(ctx):
     # ---------------- verdict
     def replay_of(x):
         if isinstance(x, str):
-            return {"case_line": x}
+            d1 = getattr(x, "d1", None)
+            return {"case_line": str(x), "depth1_base": d1} if d1 else {"case_line": x}
         return {"case": x["case"], "argv": x.get("argv"), "model_line": x.get("model_line"),
                 "daemon_output": x.get("obs", {}).get("text", "")[-800:]}
 
+    # ---------------- (a2) the same calls on trees rooted DIRECTLY below "/": the first component of the canonical path
+    # (round 8: an upward walk that stopped one directory short of "/" never examined it).  The scratch tree's own
+    # top directory gets each kind of attribute - world-writable without sticky bit, foreign owner, group-writable
+    # for a foreign group, sticky, plain - and a sample of the cases above runs below it; the judge reads the chain
+    # the harness reports with lstat(), so the expected answer follows from what is really on disk.
+    d1cfg = replay_case.get("depth1_base") if replay_case is not None else None
+    if (replay_case is None or d1cfg) and os.geteuid() == 0 and (pcases or d1cfg):
+        class D1(str):
+            pass
+        cfgs = [d1cfg] if d1cfg else [[0o777, 0, 0], [0o755, FOREIGN, 0], [0o775, 0, FOREIGN], [0o1777, 0, 0], [0o755, 0, 0], [0o757, 0, 0]]
+        pi = [c for c in pcases if c[0] in "PI"]
+        sub = [replay_case["case_line"]] if d1cfg else pi[::max(1, len(pi) // (400 if ctx.thorough else 90))]
+        n_d1 = 0
+        for i, (mode, uid, gid) in enumerate(cfgs):
+            b = "/mv-c16-d1-%d-%d" % (os.getpid(), i)
+            try:
+                os.mkdir(b, 0o755)
+                os.chown(b, uid, gid)
+                os.chmod(b, mode)
+                rc, impl, stderr = vlib.run_lines([harness, b], sub, timeout=900)
+                if rc != 0 or len(impl) != len(sub):
+                    ctx.violation("path.c harness aborts below a top-level directory (mode %o uid %d gid %d) at case %s"
+                                  % (mode, uid, gid, sub[min(len(impl), len(sub) - 1)]),
+                                  {"case_line": sub[min(len(impl), len(sub) - 1)], "depth1_base": [mode, uid, gid], "stderr": stderr[-2000:]})
+                    break
+                ol, oi = [], []
+                for k, (c, a) in enumerate(zip(sub, impl)):
+                    ctx.count("d1:%o:%d:%d:%s" % (mode, uid, gid, c))
+                    n_d1 += 1
+                    why, left = path_case_property(c, a)
+                    x = D1(c)
+                    x.d1 = [mode, uid, gid]
+                    if why:
+                        direct_fail.append((x, a, "below the top-level directory %s (mode %o, uid %d, gid %d): %s" % (b, mode, uid, gid, why)))
+                    if left is not None:
+                        ol.append(left)
+                        oi.append(k)
+                if oracle and ol:
+                    rc2, mod, err2 = vlib.run_lines([oracle], ol, timeout=900, env={"OCAMLRUNPARAM": "l=8G"})
+                    for k, l, m_ in zip(oi, ol, mod):
+                        a = impl[k].split(" => ")[1]
+                        if a != m_:
+                            x = D1(sub[k])
+                            x.d1 = [mode, uid, gid]
+                            mismatches.append((x, a, m_))
+            finally:
+                shutil.rmtree(b, ignore_errors=True)
+        dist["depth1"] = n_d1
+        ctx.log("path.c below %d kinds of top-level directory: %d cases" % (len(cfgs), n_d1))
     if infra:
         ctx.violation("%d daemon runs failed in the check's own machinery: %s" % (len(infra), infra[0][:300]),
                       {"obligation": "infrastructure", "errors": infra[:3]}, found_input=False)
